@@ -341,6 +341,30 @@ def load_known(prop):
     ]
 
 
+def probe_known(entry):
+    """Re-execute the recorded minimal witness of a listed finding against the
+    library, so that a finding that silently stopped reproducing is visible.
+    Informational only (never changes the verdict)."""
+    expr = entry.get("probe")
+    if not expr:
+        return "n/a"
+    try:
+        pvl = import_pvl()
+        import pvl.token, pvl.encoder, pvl.decoder, pvl.parser, pvl.grammar  # noqa
+
+        def raises(f):
+            try:
+                f()
+            except Exception:
+                return True
+            return False
+
+        with cpu_limit(30):
+            return "yes" if eval(expr, {"pvl": pvl, "raises": raises}) else "NO"
+    except BaseException as e:
+        return f"probe failed ({type(e).__name__})"
+
+
 def _match_value(spec, actual):
     if isinstance(spec, list):
         return actual in spec
@@ -455,7 +479,8 @@ def finish(prop, rec, *, tier_name, seed_value, rule, t0, min_nontrivial=2,
     for e in known:
         print(
             f"KNOWN-FINDING: property={prop} {e['id']}: {e['what']} "
-            f"[observations this run: {hits.get(e['id'], 0)}]"
+            f"[observations this run: {hits.get(e['id'], 0)}; recorded witness "
+            f"still reproduces: {probe_known(e)}]"
         )
     if unknown:
         for ent, path in zip(unknown, replay_paths):
